@@ -198,3 +198,37 @@ def corr(ctx, n):
         ctx.sample({'shape_history': [list(map(str, o)) for o in ops]}, limit=2)
     for h, out in enumerate(common.run_driver(lines)):
         compare(ctx, 'h%d' % h, opss[h], reals[h], out)
+
+
+ALPHABET = [('S', [0, 1, 2, 3, 4, 5], 1, 1, 'F2'), ('S', [0, 2], 3, 4, 'F2'), ('S', [0, 1, 2, 3, 4, 5], 3, 4, 'F2'),
+            ('A', 'F2'), ('A', 'Z'), ('B',), ('I',), ('X', 343.0, 0.01, 0.045, 0, 1), ('X', 343.0, 0.004, 0.03, 1, 0), ('R',)]
+
+
+def exhaustive(ctx, depth, budget_s=1200):
+    """Thorough tier: EVERY call history up to `depth` steps over a fixed alphabet (materials on all
+    walls / on two walls / multi-direction, attenuation with matching and with other frequencies,
+    bake, source, exchange order 0 with recalculation, exchange order 1 without, save/restore) on a
+    one-patch-per-wall room, against the shape-level model, step by step."""
+    import itertools
+    if lifecycle.field_kinds() is None:
+        return
+    t = common.Timer()
+    lines, reals, opss = [], [], []
+    n = 0
+    for L in range(1, depth + 1):
+        for ops in itertools.product(ALPHABET, repeat=L):
+            if t.s() > budget_s:
+                ctx.notes.append('exhaustive shape histories stopped by the time budget after %d histories' % n)
+                break
+            ops = list(ops)
+            line, real = run_history(ctx, ops, sides=(1.0, 1.0, 1.0), patch=1.0)
+            lines.append(line)
+            reals.append(real)
+            opss.append(ops)
+            n += 1
+            ctx.oracle_evals += len(real)
+    ctx.count('shape.exhaustive_histories', n)
+    ctx.cases += n
+    for h, out in enumerate(common.run_driver(lines, timeout=3600)):
+        compare(ctx, 'x%d' % h, opss[h], reals[h], out)
+
